@@ -76,6 +76,10 @@ def gen_plan(rng, tier, index):
         if rng.random() < 0.5:
             # wake-relative placement: shortly after one of the thread's first W wake-ups
             sched["stall"].update(W=rng.choice([0, 2, 6, 20]), J=rng.choice([5, 20, 60]))
+    if "stall" not in sched and rng.random() < 0.2:
+        # start-up variant: the first threads of the run (the two enable() callers and what they start) are frozen
+        # somewhere in their first 150 yield points, i.e. in the middle of enable()
+        sched["stall"] = {"q": 0.5, "J": rng.choice([60, 150]), "durs": [0.05, 0.5], "max": 2}
     if rng.random() < 0.4:
         # fault: a thread is descheduled for a moment just before one of its synchronisation calls
         sched["sync_stall"] = {"n": rng.choice([2, 4, 8, 16]), "horizon": rng.choice([200, 800, 3000, 10000]),
